@@ -509,6 +509,82 @@ def w_l2(ctx: core.Ctx, arg):
         ctx.case(('l2', method, header_shape(header), tuple(enabled), bool(cs_in), bool(cs_out), req_coding, verdict, _size_class(n)))
         if case < 2:
             ctx.sample({'sub': 'l2', **info, 'verdict': verdict, 'response_head': res.out[:160]})
+        if case % 3 == 0:
+            _keepalive_case(ctx, rng, reg, echo, enabled, cs_out, registered)
+
+
+def _keepalive_case(ctx, rng, reg, echo, enabled, cs_out, registered):
+    """2..4 requests on ONE connection, each with its own Accept-Encoding: every response is judged against the header of its own request."""
+    from sdc11073.httpserver.compression import CompressionHandler
+    srv = L.FakeServer(reg, cs_out, list(enabled))
+    k = rng.randrange(2, 5)
+    plan, raw, methods = [], b'', []
+    first_accepts = rng.choice([c for c in enabled] or registered) if rng.random() < 0.7 else None
+    for j in range(k):
+        if j == 0 and first_accepts:
+            header = first_accepts
+        else:
+            header = rng.choice([None, 'identity', f'{rng.choice(registered)};q=0', 'br', gen_accept(rng), rng.choice(AE_DIRECTED), rng.choice(registered)])
+        body, _ = gen_body(rng, rng.randrange(1, 3000))
+        hdrs = [('Host', 'x')]
+        if header is not None:
+            hdrs.append(('Accept-Encoding', header))
+        method = 'GET' if rng.random() < 0.2 else 'POST'
+        if method == 'GET':
+            body = b'<wsdl/>' * (j + 1)
+            raw += L.mk_request('GET', '/echo/?wsdl', hdrs)
+        else:
+            req_coding = rng.choice([None, None] + registered)
+            payload = CompressionHandler.compress_payload(req_coding, body) if req_coding else body
+            if req_coding:
+                hdrs.append(('Content-Encoding', req_coding))
+            hdrs.append(('Content-Length', str(len(payload))))
+            raw += L.mk_request('POST', '/echo', hdrs, payload)
+        plan.append((method, header, body))
+        methods.append(method)
+    gets = iter([b for m, h, b in plan if m == 'GET'])
+
+    class SeqEcho(Echo):
+        def do_get(self, headers, path, peer):
+            return 200, 'Ok', next(gets), 'text/xml; charset=utf-8'
+    seq = SeqEcho()
+    reg2 = type(reg)()
+    reg2.register_instance('echo', seq)
+    srv = L.FakeServer(reg2, cs_out, list(enabled))
+    res = L.feed(srv, raw, methods=methods)
+    ctx.count('l2.keepalive.connections')
+    info = {'requests': [(m, h, len(b)) for m, h, b in plan], 'enabled': list(enabled), 'chunk_out': cs_out}
+    if res.escaped is not None or res.spin is not None:
+        ctx.witness('l2.valid_request_failed', 'valid requests on one connection did not produce complete responses',
+                    {**info, 'escaped': repr(res.escaped), 'spin': res.spin, 'tb': res.escaped_tb})
+        return
+    if len(res.responses) != k or not all(p.complete for p in res.responses):
+        if len(res.responses) < k and res.responses and all(p.complete for p in res.responses) and \
+                (res.responses[-1].header('connection') or '').lower() == 'close':
+            ctx.count('l2.keepalive.server_closed_early')   # the server may close a connection; the responses sent are still judged
+        else:
+            ctx.witness('l2.keepalive.response_count', f'{k} valid requests on one connection, {len(res.responses)} responses',
+                        {**info, 'responses': [p.as_dict() for p in res.responses][:4]})
+            return
+    for j, (p, (method, header, body)) in enumerate(zip(res.responses, plan)):
+        ctx.count('l2.keepalive.responses')
+        if j > 0:
+            ctx.count('l2.keepalive.later_responses')
+        if p.status != 200:
+            ctx.witness('l2.valid_request_status', f'a valid request was answered with {p.status}', {**info, 'index': j, 'resp': p.as_dict()})
+            continue
+        chosen = p.header('content-encoding')
+        judge_choice(ctx, 'response', header, chosen, enabled, {**info, 'index_on_connection': j, 'accept_encoding': header, 'content_encoding': chosen})
+        got = p.body
+        if chosen is not None:
+            try:
+                got = L.ref_decode(chosen, got)
+            except Exception as ex:  # noqa: BLE001
+                ctx.witness('coding.response_not_decodable', f'response body is not valid {chosen}: {ex!r}', {**info, 'index': j})
+                continue
+        if got != body:
+            ctx.witness('roundtrip.l2_response', 'decoded response body differs from what the component returned',
+                        {**info, 'index_on_connection': j, 'got_len': len(got), 'want_len': len(body)})
 
 
 # ---------------------------------------------------------------------------------------------------------------
